@@ -86,7 +86,10 @@ impl History {
 
         // Write the new content next to the file and rename it into place, so that a crash or a
         // failed write never leaves a truncated history behind (which would read back as empty)
-        let tmp_path = self.path.with_extension("json.tmp");
+        // (the temp name carries the pid: two processes saving at once must not share it)
+        let tmp_path = self
+            .path
+            .with_extension(format!("json.{}.tmp", std::process::id()));
         let file = OpenOptions::new()
             .create(true)
             .write(true)
